@@ -389,6 +389,8 @@ func goldenSpecs() []goldenSpec {
 	bl := BlocksParams{N: 300, TermPer: 3, IDEvery: 1, ValPos: []int{3, 77, 9}, ValLen: []int{0, 12, 24}, TwoVals: true, StoreAll: 5, LastShort: true}
 	wd := WideParams{N: 2100, DenseSkip: 7, DenseOff: 3, DenseLocs: 5, SparsePer: 40, NoFieldPer: 9, SecondDV: true, FreqMod: 3}
 	wd2 := WideParams{N: 1025, DenseSkip: 0, DenseLocs: 0, SparsePer: 700, NoFieldPer: 0, FreqMod: 1}
+	wdExact := WideParams{N: 2500, DenseExact: 2048, DenseLocs: 5, SparsePer: 40, NoFieldPer: 9, FreqMod: 2}
+	wdExact1 := WideParams{N: 1024, DenseExact: 1024, SparsePer: 1, FreqMod: 1}
 	dropSome := roaring.BitmapOf(1, 3)
 	wdDrop := roaring.New()
 	for i := 0; i < 2100; i += 3 {
@@ -405,6 +407,8 @@ func goldenSpecs() []goldenSpec {
 		{name: "blocks-merged-reencode", leaves: []Batch{bl.Batch(sc), small}, modes: []uint32{5, 1025}, drops: []*roaring.Bitmap{roaring.BitmapOf(0, 127, 128, 299), nil}, out: 7},
 		{name: "wide-built-adaptive", leaves: []Batch{wd.Batch(sc)}, modes: []uint32{1025}},
 		{name: "wide-built-legacy1024", leaves: []Batch{wd2.Batch(sc)}, modes: []uint32{1024}},
+		{name: "wide-built-exact2048-adaptive", leaves: []Batch{wdExact.Batch(sc)}, modes: []uint32{1025}},
+		{name: "wide-merged-exact1024-adaptive", leaves: []Batch{wdExact1.Batch(sc), small}, modes: []uint32{1025, 1025}, drops: []*roaring.Bitmap{nil, roaring.BitmapOf(0, 1, 2, 3, 4)}, out: 1025},
 		{name: "wide-merged-adaptive", leaves: []Batch{wd.Batch(sc), wd2.Batch(sc)}, modes: []uint32{1025, 1025}, drops: []*roaring.Bitmap{wdDrop, nil}, out: 1025},
 	}
 }
